@@ -271,7 +271,19 @@ def build(fsic, spec):
     symbols = fsic.parse_model(spec['script'])
     base = fsic.build_model(symbols)
     cls = probes.make_probed(fsic, base)
-    m = probes.new_scripted_instance(cls, span, spec['init'])
+    via = spec.get('init_via', 'dict')
+    if via == 'dict':
+        m = probes.new_scripted_instance(cls, span, spec['init'])
+    else:
+        # through the constructor, as a user would: arrays the caller keeps hold of (and may pass for several variables)
+        arrays = {nm: np.array([probes.fval(v) for v in vals], dtype=float) for nm, vals in spec['init'].items()}
+        endo_ = [x for x in base.ENDOGENOUS if x in arrays]
+        other_ = [x for x in base.NAMES if x not in base.ENDOGENOUS and x in arrays]
+        if via == 'kwargs-shared' and endo_ and other_:
+            arrays[other_[0]] = arrays[endo_[0]]  # one array object initialises an endogenous and an exogenous variable
+        m = cls(span, **arrays)
+        ctl = probes.attach_ctl(m)
+        ctl.caller_arrays = [(nm, a, a.copy()) for nm, a in arrays.items()]
     return m, span, list(base.ENDOGENOUS), list(base.CHECK), [x for x in base.NAMES if x not in base.ENDOGENOUS]
 
 
